@@ -633,8 +633,73 @@ fn perm_components(rep: &Reporter, rng: &mut SplitMix64, n: usize) {
     }
 }
 
+/// Every public constructor of every variation component builds a component that runs on a valid population.
+fn constructors(rep: &Reporter) {
+    use mahf::identifier::A;
+    let real = Real::new(4, -5.0, 5.0, RealFn::Sphere);
+    let rpop: Vec<Vec<f64>> = vec![vec![1.0, 2.0, 3.0, 4.0], vec![-1.0, -2.0, -3.0, -4.0], vec![0.5, 0.25, 0.125, 0.0]];
+    let rcomps: Vec<(&str, Box<dyn Component<Real>>)> = vec![
+        ("NormalMutation::new_dev", mutation::NormalMutation::new_dev(0.1)),
+        ("NormalMutation::new_with_id", mutation::NormalMutation::<A>::new_with_id(0.1, 0.5)),
+        ("NormalMutation::from_params", Box::new(mutation::NormalMutation::<A>::from_params(0.1, 0.5))),
+        ("UniformMutation::new_bound", mutation::UniformMutation::new_bound(0.3)),
+        ("UniformMutation::new_with_id", mutation::UniformMutation::<A>::new_with_id(0.3, 0.5)),
+        ("PartialRandomSpread::new_full", mutation::PartialRandomSpread::new_full()),
+        ("PartialRandomSpread::new_with_id", mutation::PartialRandomSpread::<A>::new_with_id(0.5)),
+        ("ScrambleMutation::new_full", mutation::ScrambleMutation::new_full()),
+        ("ScrambleMutation::new_with_id", mutation::ScrambleMutation::<A>::new_with_id(0.5)),
+        ("NPointCrossover::new_insert_single", recombination::NPointCrossover::new_insert_single(2, 1.0)),
+        ("NPointCrossover::new_insert_both", recombination::NPointCrossover::new_insert_both(3, 1.0)),
+        ("UniformCrossover::new_insert_single", recombination::UniformCrossover::new_insert_single(1.0)),
+        ("UniformCrossover::new_insert_both", recombination::UniformCrossover::new_insert_both(1.0)),
+        ("ArithmeticCrossover::new_insert_single", recombination::ArithmeticCrossover::new_insert_single(1.0)),
+        ("ArithmeticCrossover::new_insert_both", recombination::ArithmeticCrossover::new_insert_both(1.0)),
+    ];
+    for (name, c) in rcomps {
+        rep.case();
+        rep.nontrivial(hash_of(&("ctor", name)));
+        let r = run_comp(&real, c.as_ref(), &[rpop.clone()], 11, true);
+        let expect = if name.contains("insert_single") { 2 } else { 3 };
+        if outcome_class(&r) != "ok" || r.stack.len() != 1 || r.stack[0].len() != expect || r.stack[0].iter().any(|x| x.0.len() != 4) {
+            rep.violation(&format!("constructor:{name}:component-does-not-run-or-wrong-shape"), json!({"constructor": name, "result": format!("{:?}", r.result), "individuals_after": r.stack.first().map(|p| p.len())}));
+        }
+    }
+    let bits = Bits::new(5, BitFn::OneMax);
+    let bpop: Vec<Vec<bool>> = vec![vec![true, false, true, false, true], vec![false; 5]];
+    let bcomps: Vec<(&str, Box<dyn Component<Bits>>)> = vec![
+        ("BitFlipMutation::new_with_id", mutation::BitFlipMutation::<A>::new_with_id(0.5)),
+        ("PartialRandomBitstring::new_uniform", mutation::PartialRandomBitstring::new_uniform(0.5)),
+        ("PartialRandomBitstring::new_full", mutation::PartialRandomBitstring::new_full(0.3)),
+        ("PartialRandomBitstring::new_uniform_full", mutation::PartialRandomBitstring::new_uniform_full()),
+        ("PartialRandomBitstring::new_with_id", mutation::PartialRandomBitstring::<A>::new_with_id(0.5, 0.5)),
+    ];
+    for (name, c) in bcomps {
+        rep.case();
+        rep.nontrivial(hash_of(&("ctor", name)));
+        let r = run_comp(&bits, c.as_ref(), &[bpop.clone()], 12, true);
+        if outcome_class(&r) != "ok" || r.stack.len() != 1 || r.stack[0].len() != 2 || r.stack[0].iter().any(|x| x.0.len() != 5) {
+            rep.violation(&format!("constructor:{name}:component-does-not-run-or-wrong-shape"), json!({"constructor": name, "result": format!("{:?}", r.result)}));
+        }
+    }
+    let perm = Perm::new(5);
+    let ppop: Vec<Vec<usize>> = vec![vec![0, 1, 2, 3, 4], vec![4, 3, 2, 1, 0], vec![2, 0, 4, 1, 3]];
+    let pcomps: Vec<(&str, Box<dyn Component<Perm>>)> = vec![
+        ("CycleCrossover::new_insert_single", recombination::CycleCrossover::new_insert_single(1.0)),
+        ("CycleCrossover::new_insert_both", recombination::CycleCrossover::new_insert_both(1.0)),
+    ];
+    for (name, c) in pcomps {
+        rep.case();
+        let r = run_comp(&perm, c.as_ref(), &[ppop.clone()], 13, true);
+        let expect = if name.contains("insert_single") { 2 } else { 3 };
+        if outcome_class(&r) != "ok" || r.stack[0].len() != expect || r.stack[0].iter().any(|x| !is_perm_of(&x.0, &[0, 1, 2, 3, 4])) {
+            rep.violation(&format!("constructor:{name}:component-does-not-run-or-wrong-shape"), json!({"constructor": name, "result": format!("{:?}", r.result)}));
+        }
+    }
+}
+
 fn main() {
     let rep = Reporter::from_args("C13");
+    constructors(&rep);
     rep.rule("functional helpers exhaustively: circular_swap vs circular_swap2 vs a reference shift on identity + 3 shuffled sequences per length 2..7 x every ordered tuple of >=2 distinct indices; translocate_slice vs translocate_slice2 vs a reference on all ranges (incl. empty and ending at len) x all admissible indices; uniform / multi-point crossover on all parent pairs over {0,1,2}^len, len<=4, x all masks / all cut sets in both orders; arithmetic crossover on a value x alpha grid; cycle crossover on all pairs of permutations up to length 5. Components (seeded): every mutation / recombination / DE component on populations of 0..9 individuals, dimension 1..12, rates and probabilities in {0,.3|.5,1}: no panic and no Err on valid input, dimension and elements conserved, rate 0 changes nothing, offspring counts follow insert-one/insert-both/probability, position-wise gene conservation, SwapMutation for 2 <= k <= dimension changes exactly k positions, DEMutation maps n(2y+1) -> n with the documented formula and errs on any other length. distinct_nontrivial = distinct (operator, parameter, shape) cells");
     rep.assume("valid = dimension >= 2 for permutation mutations, n < dimension for n-point crossover, equal parent lengths");
     helpers_permutation(&rep);
